@@ -448,7 +448,53 @@ def run_system(out, m, tag, rng, p_hol, p_macro, p_bnb, p_strict):
             out.emit("strictmacro", "rat", n, st, tag, v, err, w, p)
 
 
+def run_ordered(out, m, tag, rng, p_macro, p_bnb):
+    """ordered systems with a repeated left-hand side (the ORDER of assertion is the input): simplex family only"""
+    n = len(m[0]) - 1
+    rows = f_rows(m)
+    fr = flip(rows)
+    for shape, rs in (("nz", rows), ("all", fr)):
+        v, w, p, err = call_simplex(rs, n, shape)
+        out.emit("simplex", "rat", n, rs, tag + shape, v, err, w, p)
+    if rng.random() < p_macro:
+        v, w, p, err = call_macro(rows, n, "simplexmacro")
+        out.emit("simplexmacro", "rat", n, rows, tag, v, err, w, p)
+    if rng.random() < p_bnb:
+        v, w, p, err = call_bnb(rows, n, "nz")
+        out.emit("bnb", "int", n, rows, tag, v, err, w, p)
+
+
+def repeat_system(rng):
+    """2-3 variables, 3-5 rows: one or two linear forms bounded twice (different constants, sometimes the negated form),
+    the other rows share variables with them; random order (weak-then-tight and tight-then-weak both occur)"""
+    n = rng.choice([2, 3, 3])
+    k = rng.randint(3, 5)
+    cmax = rng.choice([1, 1, 2, 3])
+
+    def form():
+        while True:
+            a = [rng.randint(-cmax, cmax) if rng.random() < 0.8 else 0 for _ in range(n)]
+            if any(a):
+                return a
+    rows = []
+    f = form()
+    c = rng.randint(-4, 4)
+    rows.append(f + [c])
+    rows.append(f + [c + rng.choice([-3, -2, -1, 1, 2, 3])])
+    while len(rows) < k:
+        r = rng.random()
+        if r < 0.25:
+            g = list(rng.choice(rows)[:-1])
+            rows.append((g if rng.random() < 0.6 else [-x for x in g]) + [rng.randint(-4, 4)])
+        else:
+            rows.append(form() + [rng.randint(-4, 4)])
+    rng.shuffle(rows)
+    return rows
+
+
 def rand_system(rng):
+    if rng.random() < 0.3:
+        return repeat_system(rng)
     n = rng.choice([1, 2, 2, 3, 3, 4, 5])
     k = rng.randint(1, 8)
     cmax = rng.choice([1, 2, 3, 5])
@@ -488,8 +534,12 @@ def do_vectors(vec, outp, sd, tier):
         for ln in f:
             ln = ln.strip()
             if ln:
-                m = [list(r) for r in json.loads(ln)["m"]]
-                run_system(out, m, "v", rng, *ps)
+                j = json.loads(ln)
+                m = [list(r) for r in j["m"]]
+                if j.get("fam", "v") == "p":
+                    run_ordered(out, m, "p", rng, 0.06, 0.06)
+                else:
+                    run_system(out, m, "v", rng, *ps)
     out.close()
 
 
